@@ -517,6 +517,20 @@ func exAbsVariants(r *rng, g *exGraph) []*exInput {
 	return []*exInput{a, b, c}
 }
 
+// exC18Variants: both renderings, a built root, and the same graph with a broken reference (a pointer that leads nowhere, an
+// ill-typed target...): what is fetched, and how often, is the cache's business whether or not the expansion succeeds.
+func exC18Variants(r *rng, g *exGraph) []*exInput {
+	out := exAbsVariants(r, g)
+	for tries := 0; tries < 3; tries++ {
+		if f, kind := exInjectFault(r, g); f != nil && kind != "missing-doc" && kind != "empty-union" {
+			in := exInputOf(f)
+			in.Opts = &exOpts{}
+			return append(out, in)
+		}
+	}
+	return out
+}
+
 // ---------------------------------------------------------------------------------------------
 // C03: only resolvable cycle cut-points remain; acyclic specifications end `$ref`-free and deterministic
 
@@ -2287,7 +2301,7 @@ func init() {
 	reg("C08", exGraphOracle("C08", false, true, exPlainVariant, checkC08, 1), checkC08)
 	reg("C09", exGraphOracle("C09", false, false, exAbsVariants, checkC09, 1), checkC09)
 	reg("C10", exGraphOracle("C10", false, false, exC10Variants, checkC10, 1), checkC10)
-	reg("C18", exGraphOracle("C18", false, false, exAbsVariants, checkC18, 1), checkC18)
+	reg("C18", exGraphOracle("C18", false, false, exC18Variants, checkC18, 1), checkC18)
 	reg("C11e2e", exGraphOracle("C11e2e", false, false, exSpellingVariants, checkC11e2e, 1), checkC11e2e)
 	oracles["C16"] = oracleC16
 	replays["C16"] = replayC16
